@@ -52,7 +52,7 @@ class FailAt:
     def maybe_fail(self, point, stage=None, step=None, **info):
         if self.fired or point != self.point or stage != self.stage or step != self.step:
             return
-        if point == "save_middle":
+        if point in ("save_middle", "update_middle", "induced_exit"):
             if info.get("n") != self.nth:
                 return
         self.fired = True
@@ -60,6 +60,14 @@ class FailAt:
             raise KeyboardInterrupt()
         self.exc = Injected(f"injected at {point} {stage} step {step}")
         raise self.exc
+
+
+def S_BC2(dev):
+    """Bc2 of the device spec in mT (field_units of these cases)."""
+    from . import _simcases as S
+
+    sc = S._scales(dev, {"field_units": "mT", "current_units": "uA"})
+    return sc.Bc2 / sc.fu
 
 
 def gen_cases(tier, seed):
@@ -81,6 +89,9 @@ def gen_cases(tier, seed):
     combos.append(dict(k=2, therm=True, out="file", pre=[], pause="no"))
     combos.append(dict(k=4, therm=False, out="file", pre=[], pause="yes"))
     combos.append(dict(k=1, therm=False, out="temp", pre=[], pause="yes"))
+    # screening: update() iterates; faults can arrive between its iterations
+    combos.append(dict(k=3, therm=False, out="file", pre=[], pause="off", scr=True))
+    combos.append(dict(k=2, therm=True, out="temp", pre=[], pause="off", scr=True))
     if tier == "thorough":
         for k in (1, 3):
             for therm in (False, True):
@@ -93,6 +104,10 @@ def gen_cases(tier, seed):
         o = dict(solve_time=N * dt - dt / 2, dt_init=dt, dt_max=0.1, adaptive=False, save_every=c["k"], field_units="mT", current_units="uA", output=c["out"],
                  auto_dt={"steps": N, "frac": 0.3, "exact": True, "therm_steps": 3 if c["therm"] else 0})
         drive = {"A": {"kind": "uniform", "B": 0.05}}
+        if c.get("scr"):
+            dev["layer"]["lam"], dev["layer"]["d"] = 2.0, 0.1
+            o.update(include_screening=True, screening_tolerance=1e-3, max_iterations_per_step=2000)
+            drive = {"A": {"kind": "uniform", "B": 0.3 * S_BC2(dev)}}
         cases.append({"mode": "hooks", "combo": c, "device": dev, "options": o, "drive": drive, "N": N, "seed": int(rng.integers(1 << 30)), "cost": 30})
     for c in (combos[:6] if tier == "thorough" else [combos[2], combos[1]]):
         if True:
@@ -495,7 +510,9 @@ def run_case(spec):
                 for exc_kind in ("err", "kbd"):
                     if combo["pause"] != "off" and exc_kind == "err":
                         continue
-                    points = [("update_entry", 0), ("update_exit", 0)]
+                    points = [("update_entry", 0), ("update_exit", 0), ("update_middle", 0)]
+                    if combo.get("scr"):
+                        points += [("update_middle", 1), ("induced_exit", 0), ("induced_exit", 1)]
                     if stage == "Simulating":
                         points += [("save_entry", 0), ("save_exit", 0)] + [("save_middle", n) for n in (0, 2, 4, 5, 6)]
                     for point, nth in points:
@@ -530,7 +547,7 @@ def run_case(spec):
         seen[x["mechanism"]] = seen.get(x["mechanism"], 0) + 1
         if seen[x["mechanism"]] <= 3:
             VV.append(x)
-    return {"violations": VV, "counters": C, "classes": sorted(classes) + [f"k={combo['k']}", f"therm={combo['therm']}", "out=" + combo["out"], "pause=" + combo["pause"], "pre=" + ",".join(combo["pre"])],
+    return {"violations": VV, "counters": C, "classes": sorted(classes) + [f"k={combo['k']}", f"therm={combo['therm']}", "out=" + combo["out"], "pause=" + combo["pause"], "pre=" + ",".join(combo["pre"]), "screening=" + str(bool(combo.get("scr")))],
             "nontrivial": C.get("faults_fired", 0) > 0, "nontrivial_n": C.get("faults_fired", 0), "key": f"{spec['mode']}|{combo}|{spec['seed']}",
             "observations": {"violating_runs_" + m: n for m, n in seen.items()},
             "sample": {"combo": combo, "runs": C.get("runs", 0), "faults_fired": C.get("faults_fired", 0), "not_reached": C.get("fault_not_reached", 0)}}
